@@ -166,6 +166,18 @@ def sensitivity(a, chk):
     caught = missed = 0
     only = set(a.only.split(",")) if getattr(a, "only", "") else None
     patches = [x for x in _patches(props) if not only or x[1] in only]
+    masked = []
+    for x in list(patches):
+        mp = os.path.join(os.path.dirname(x[2]), "meta.json")
+        try:
+            if json.load(open(mp)).get("masked_by_fix"):
+                patches.remove(x)
+                masked.append(x)
+        except Exception:
+            pass
+    for prop, name, _ in masked:
+        print("%s %s: not run - no longer changes behaviour observable through the engine (masked by a later fix, see meta.json)" % (prop, name), flush=True)
+        report["results"].append({"property": prop, "mutant": name, "result": "masked by a later fix"})
     par = max(1, a.par)
     jobs_each = max(2, (os.cpu_count() or 16) // par + 2)
     lock = threading.Lock()
